@@ -545,7 +545,7 @@ pub fn dir_eval(prop: &'static str, case: &DirCase) -> CaseOutcome {
                         // corrupted media only: a long-name slot whose first eleven bytes equal this name comes
                         // first. Which of the two a lookup designates is not settled by the statement.
                         if let Some(f) = first {
-                            let shadow = slots[..fatspec::end_index(&slots)].iter().take(f.slot_idx).any(|s| s.raw[0] != 0xE5 && fatspec::slot_is_lfn(&s.raw) && s.raw[..11] == f.name);
+                            let shadow = slots[..fatspec::end_index(&slots)].iter().take(f.slot_idx).any(|s| s.raw[0] != 0xE5 && fatspec::slot_is_lfn(&s.raw) && s.raw[..11] == f.raw[..11]);
                             if shadow {
                                 probes.hit("name_shadowed_by_long_name_slot_skipped");
                                 continue;
